@@ -149,6 +149,29 @@ func genInStream(r *rand.Rand, bufSize, nPkt int, withOutbound bool) *inStream {
 	return s
 }
 
+// appendPublish adds a PUBLISH with the given remaining length to the stream.
+func (s *inStream) appendPublish(r *rand.Rand, id uint16, rem int) {
+	qos := byte(r.Intn(3))
+	topic := topicOfLen(r, 3)
+	ps := rem - 2 - len(topic)
+	if qos != 0 {
+		ps -= 2
+	}
+	payload := make([]byte, ps)
+	r.Read(payload)
+	raw := wire.Publish(topic, payload, qos, id, false, false)
+	s.Bytes = append(s.Bytes, raw...)
+	s.Bounds = append(s.Bounds, len(s.Bytes))
+	s.Desc = append(s.Desc, fmt.Sprintf("PUBLISH q%d id=%#x topic=3 remaining-length=%d big=true", qos, id, rem))
+	s.Returns = append(s.Returns, wantRet{topic, payload, true})
+	switch qos {
+	case 1:
+		s.Acks = append(s.Acks, wire.Ack(wire.PUBACK, id))
+	case 2:
+		s.Acks = append(s.Acks, wire.Ack(wire.PUBREC, id))
+	}
+}
+
 // fragPlan describes how the inbound bytes get cut.
 type fragPlan struct {
 	Cuts     map[int]bool // absolute inbound offsets after which a Read ends
@@ -186,13 +209,17 @@ func runInStream(c *run.Ctx, s *inStream, fp fragPlan, label string) (stalls int
 		if fp.OneByte {
 			return sim.ReadDecision{Deliver: 1}
 		}
-		for n := 1; n <= avail; n++ {
-			if fp.Cuts[cn.InPos+n] {
-				if fp.Stalls[cn.InPos+n] {
-					return sim.ReadDecision{Deliver: n, Then: "timeout"}
-				}
-				return sim.ReadDecision{Deliver: n}
+		next := 0
+		for p := range fp.Cuts {
+			if n := p - cn.InPos; n >= 1 && n <= avail && (next == 0 || n < next) {
+				next = n
 			}
+		}
+		if next != 0 {
+			if fp.Stalls[cn.InPos+next] {
+				return sim.ReadDecision{Deliver: next, Then: "timeout"}
+			}
+			return sim.ReadDecision{Deliver: next}
 		}
 		return sim.ReadDecision{Deliver: -1}
 	}
@@ -354,7 +381,7 @@ func init() {
 			return 96
 		},
 		ChunkSize:   4,
-		Rule:        "each case draws one well-formed broker stream (PUBLISH at three levels with topic 1-20 B and payload 0 … read-buffer-size±2 … 3 buffers, retransmitted QoS 2 duplicates, PUBREL known/unknown, unsolicited PINGRESP/SUBACK/UNSUBACK, PUBACK/PUBREC/PUBCOMP for publishes really made) at a small read buffer (VerifSetReadBufSize 64-512; every 8th case at the real 128 KiB with payloads up to 3 buffers) and feeds it to a fresh client once per fragmentation: EVERY single cut position, EVERY single cut followed by a deadline expiry (fired by the connection only when a byte arrived since the deadline was armed), 1-byte reads, the whole stream at once (CONNACK coalesced), and PRNG multi-cut plans; big messages are read or skipped by plan. Oracle: returned (topic, payload, BigMessage.Topic/Size/ReadAll) equal the reference list and the acknowledgement bytes written equal the reference sequence, so all fragmentations agree. Non-trivial: a packet delivered in >= 2 reads; distinct by (buffer size, cut position relative to packet fields, stall).",
+		Rule:        "each case draws one well-formed broker stream (PUBLISH at three levels with topic 1-20 B and payload 0 … read-buffer-size±2 … 3 buffers, retransmitted QoS 2 duplicates, PUBREL known/unknown, unsolicited PINGRESP/SUBACK/UNSUBACK, PUBACK/PUBREC/PUBCOMP for publishes really made) at a small read buffer (VerifSetReadBufSize 64-512; every 8th case at the real 128 KiB with payloads up to 3 buffers, every 16th with a message whose remaining length lies at the step from three to four length bytes, 2,097,151 and up) and feeds it to a fresh client once per fragmentation: EVERY single cut position, EVERY single cut followed by a deadline expiry (fired by the connection only when a byte arrived since the deadline was armed), 1-byte reads, the whole stream at once (CONNACK coalesced), and PRNG multi-cut plans; big messages are read or skipped by plan. Oracle: returned (topic, payload, BigMessage.Topic/Size/ReadAll) equal the reference list and the acknowledgement bytes written equal the reference sequence, so all fragmentations agree. Non-trivial: a packet delivered in >= 2 reads; distinct by (buffer size, cut position relative to packet fields, stall).",
 		Assumptions: []string{"deadline expiries are reported by a Read call of their own (n = 0), as net.Conn implementations do", "topics stay below buffer size - 8 as the package documents for BigMessage"},
 		Run: func(c *run.Ctx) {
 			real128k := c.Case%8 == 7
@@ -366,6 +393,10 @@ func init() {
 			}
 			defer mqtt.VerifSetReadBufSize(128 * 1024)
 			s := genInStream(c.Rng, buf, n, c.Rng.Intn(2) == 0)
+			if c.Case%16 == 15 {
+				// a remaining length at the step from three to four bytes
+				s.appendPublish(c.Rng, 0xfffe, 2097151+[]int{0, 1, 2, 70000}[c.Rng.Intn(4)])
+			}
 			total := 4 + len(s.Bytes)
 			bigs := 0
 			for _, r := range s.Returns {
@@ -389,7 +420,7 @@ func init() {
 			if !do(fragPlan{}, "whole stream in one read") {
 				return
 			}
-			if !do(fragPlan{OneByte: true}, "1-byte reads") {
+			if total <= 1<<20 && !do(fragPlan{OneByte: true}, "1-byte reads") {
 				return
 			}
 			// positions: all for small streams, the interesting ones for large
